@@ -104,6 +104,12 @@ pub fn install_hook() {
                     .push(format!("{msg} @ {loc}"));
             }
             let full = format!("{msg} @ {loc}");
+            if msg.starts_with("panic in a destructor during cleanup") || msg.starts_with("panic in a function that cannot unwind") {
+                // a panic that cannot unwind (typically a second panic in a destructor that runs while the
+                // first one unwinds) aborts the process: no `catch` will ever see it. Say what led to it.
+                let before = LAST_PANIC.try_with(|p| p.borrow().clone()).ok().flatten().unwrap_or_default();
+                eprintln!("VERIF-ABORT: {} ; while unwinding from: {}", full.replace('\n', " "), before.replace('\n', " "));
+            }
             let _ = LAST_PANIC.try_with(|p| *p.borrow_mut() = Some(full));
             let quiet = QUIET.try_with(|q| *q.borrow() > 0).unwrap_or(false);
             if !quiet {
